@@ -143,3 +143,12 @@ Print Assumptions c08_publication_relaxed_refuted.
 Theorem c08_set_value_keeps_context_alive : set_value_pins_context = true.
 Proof. reflexivity. Qed.
 Print Assumptions c08_set_value_keeps_context_alive.
+
+(* clock: every time reading of wait_for_slow is taken from a monotonic clock (regenerated: number of
+   clock_gettime calls = number of those with a CLOCK_MONOTONIC* / CLOCK_BOOTTIME id), so the `clock` of the
+   model - elapsed time - is what the code measures the timeout with; a calendar clock could be stepped under a
+   waiter (the scheduler runs step the calendar clocks forwards and backwards while timed waits are pending) *)
+Theorem c08_wait_clock_is_monotonic :
+  wait_clock_monotonic_reads = wait_clock_reads /\ (1 <= wait_clock_reads)%Z.
+Proof. split; [reflexivity | vm_compute; intro H; discriminate H]. Qed.
+Print Assumptions c08_wait_clock_is_monotonic.
